@@ -38,7 +38,8 @@ def run_chunk(pid, tier, verif_seed, start, count, per_run_timeout=120):
             continue
         finally:
             faulthandler.cancel_dump_traceback_later()
-        out["n"] += 1
+        out["n"] += ev.get("evals", 1)
+        out["scenarios"] = out.get("scenarios", 0) + 1
         res = ev["res"]
         st = res.get("stats", {})
         out["vtime"] += st.get("vtime", 0.0) or 0.0
@@ -58,6 +59,9 @@ def run_chunk(pid, tier, verif_seed, start, count, per_run_timeout=120):
         key = camp.nontrivial(sc, ev)
         if key is not None:
             out["keys"].add(khash(key))
+        for k2 in ev.get("keys", []):
+            out["keys"].add(khash(k2))
+            key = k2
         out["skeletons"].add(skeleton_hash(res["trace"]))
         if len(out["samples"]) < 1 and key is not None:
             out["samples"].append(camp.sample(sc, ev))
@@ -65,9 +69,11 @@ def run_chunk(pid, tier, verif_seed, start, count, per_run_timeout=120):
             v = ev["violations"][0]
             c["violating_runs"] += 1
             if len(out["violations"]) < 4:
-                sc2 = dict(sc)
+                sc2 = dict(ev.get("scenario") or sc)
+                sc2.setdefault("seed", rs)
+                sc2.setdefault("index", i)
                 out["violations"].append({"i": i, "seed": rs, "scenario": sc2, "violation": v,
-                                          "signature": camp.signature(v, sc), "digest": res["digest"]})
+                                          "signature": camp.signature(v, sc2), "digest": res["digest"]})
             else:
                 out["violations_dropped"] = out.get("violations_dropped", 0) + 1
     out["keys"] = list(out["keys"])
